@@ -4,6 +4,9 @@ no /repo hook), against the spec-level oracle of designs/oracle.py:
 
   MethodMap.__init__                      [C04]  methods_by_transaction[t] = static call tree of t; transactions_by_method
                                                  is its inverse; one CallInfo per call path from t to m
+  TransactionManager._relations           [C02]  every add_conflict / schedule_before of the design whose two ends are called
+                                                 (or are transactions) is in the returned list, with its priority and
+                                                 conflict flag
   TransactionManager._conflict_graph      [C01]  cgr symmetric; SpecConf(t, u) => u in cgr[t]               (soundness;
                                                  SpecConf here = Oracle.direct_method_conflict: the double activation is
                                                  between a call reached from t and a call reached from u, not one that
@@ -42,7 +45,18 @@ def manager_contracts(pid, ctx, b, o):
     S = lambda name, ok, detail=None: ctx.structural(name, ok, BACKEND, detail)
     adj = {name_of[id(t)]: {name_of[id(u)] for u in us} for t, us in cgr.items()}
 
-    if pid == "C04":
+    if pid == "C02":
+        rels = TransactionManager._relations(method_map)  # pure: the manager itself calls it inside _conflict_graph
+        got = {(name_of.get(id(r.start)), name_of.get(id(r.end)), r.priority.name, bool(r.conflict)) for r in rels}
+        live = {name_of.get(id(x)) for x in method_map.methods_and_transactions}
+        prio = {"U": "UNDEFINED", "L": "LEFT", "R": "RIGHT"}
+        for rel in b.spec.get("relations", []):
+            a = rel[1] if rel[1] in d.bodies else d.resolve(rel[1])
+            bb = rel[2] if rel[2] in d.bodies else d.resolve(rel[2])
+            if a in live and bb in live:
+                want = (a, bb, prio[rel[3]], True) if rel[0] == "conflict" else (a, bb, "LEFT", False)
+                S(f"_relations.contains[{rel[0]}({rel[1]},{rel[2]},{rel[3]})]", want in got, f"missing {want}; returned {sorted(map(str, got))[:12]}")
+    elif pid == "C04":
         for t in sorted(tnames):
             got = {name_of.get(id(m)) for m in method_map.methods_by_transaction[body_of[t]]}
             S(f"MethodMap.methods_by_transaction[{t}]_is_static_call_tree", got == set(o.tree(t)), f"got {sorted(map(str, got))}, call tree {o.tree(t)}")
@@ -91,4 +105,5 @@ def manager_contracts(pid, ctx, b, o):
                     for tb in o.transactions_for(name):
                         if ta != tb:
                             S(f"_conflict_graph.porder_respects_nesting[{ta}<{tb}]", po[ta] < po[tb], str(po))
-    ctx.functions.update({("transactron.core.manager.MethodMap.__init__", "transactron/core/manager.py"), ("transactron.core.manager.TransactionManager._conflict_graph", "transactron/core/manager.py")})
+    ctx.functions.update({("transactron.core.manager.MethodMap.__init__", "transactron/core/manager.py"), ("transactron.core.manager.TransactionManager._conflict_graph", "transactron/core/manager.py"),
+                          ("transactron.core.manager.TransactionManager._relations", "transactron/core/manager.py")})
